@@ -110,6 +110,30 @@ def is_none(v):
     return isinstance(v, V) and v.ty is TNone
 
 
+_READS_KW = {}
+
+
+def _reads_kwargs(f):
+    """does the python function f(eng, args, kw, n, st) ever read its third parameter?"""
+    code = getattr(f, "__code__", None)
+    if code is None or code.co_argcount < 3:
+        return True
+    if code not in _READS_KW:
+        import dis
+
+        name = code.co_varnames[2]
+        _READS_KW[code] = name in code.co_cellvars or any(i.argval == name and i.opname.startswith("LOAD") for i in dis.get_instructions(code))
+    return _READS_KW[code]
+
+
+def _mul_axioms():
+    f = z3.Function("real!mul", z3.RealSort(), z3.RealSort(), z3.RealSort())
+    a, b = z3.Reals("rm!a rm!b")
+    return [z3.ForAll([a, b], f(a, b) == f(b, a), patterns=[f(a, b)]),
+            z3.ForAll([b], f(0, b) == 0, patterns=[f(0, b)]), z3.ForAll([b], f(1, b) == b, patterns=[f(1, b)]),
+            z3.ForAll([a], f(a, 0) == 0, patterns=[f(a, 0)]), z3.ForAll([a], f(a, 1) == a, patterns=[f(a, 1)])]
+
+
 class Engine:
     def __init__(self, contract, registry, fnode, src_info, verbose=False):
         self.c = contract
@@ -772,6 +796,15 @@ class Engine:
                     return V(rt, x + y)
                 if o == "-":
                     return V(rt, x - y)
+                if real and o in ("*", "/") and getattr(self.c, "abstract_nonlinear", False) and not (z3.is_rational_value(z3.simplify(x)) or z3.is_rational_value(z3.simplify(y))):
+                    # products and quotients of two non-constant reals as uninterpreted operations (the clause language and the code go through the
+                    # same symbols, so a proof by "same expression" stays in linear arithmetic + EUF); multiplication is declared commutative
+                    f = z3.Function("real!mul" if o == "*" else "real!div", z3.RealSort(), z3.RealSort(), z3.RealSort())
+                    if o == "/":
+                        self.require(st, "safe.div", n, y != 0, "ZeroDivisionError")
+                    else:
+                        self.uses_axioms(_mul_axioms)
+                    return V(TReal, f(x, y))
                 if o == "*":
                     return V(rt, x * y)
                 if o == "/":
@@ -1238,7 +1271,7 @@ class Engine:
                 # filtered: membership + value characterisation (insertion order of the kept keys is not encoded)
                 kx2 = z3.Const(f"ckf!{st.fresh_n}", kt.sort())
                 st.assume(SQ.forall([kx2], SQ.has(keys, kx2) == SQ.exists([j], z3.And(cond, kterm == kx2), patterns=jpat), patterns=[SQ.has(keys, kx2)]))
-                st.assume(SQ.forall([j], z3.Implies(cond, z3.Select(s.val(res.t), kterm) == vterm), patterns=jpat))
+                st.assume(SQ.forall([j], z3.Implies(cond, z3.And(SQ.has(keys, kterm), z3.Select(s.val(res.t), kterm) == vterm)), patterns=jpat))
                 st.assume(SQ.length(keys) <= ln)
                 self.notes.append(f"line {n.lineno}: filtered dict comprehension encoded by membership and values (key order not encoded)")
                 self.merge_fresh(st, inner)
@@ -1423,6 +1456,9 @@ class Engine:
         if isinstance(f, Closure):
             return self.call_closure(f, args, kwargs, n, st)
         if callable(f) and not isinstance(f, (V, MObj, tuple)):
+            if kwargs and not self.spec_mode and not _reads_kwargs(f):
+                # a library model that never looks at its keyword arguments would silently ignore an option the code passes (dtype=, axis=, ...)
+                raise OutOfSubset(n, f"{getattr(f, '__name__', 'library model')}(..., {', '.join(sorted(kwargs))}=...): the library contract has no keyword options")
             return f(self, args, kwargs, n, st)
         if isinstance(f, V) and isinstance(f.ty, TObj):
             k = self.reg.lookup_method(f.ty.name, "__call__")
@@ -2056,10 +2092,16 @@ class Engine:
                                 and isinstance(m.func.value, ast.Name) and m.func.value.id not in dl):
                             names.add(m.func.value.id)
                 for t in tgts:
-                    for x in ast.walk(t):
-                        if isinstance(x, ast.Name):
-                            names.add(x.id)
-                            break
+                    # the variable a store goes to is the ROOT of the target (`cache[0][i] = v` stores to `cache`, not to `i`)
+                    stack = [t]
+                    while stack:
+                        y = stack.pop()
+                        if isinstance(y, (ast.Tuple, ast.List)):
+                            stack.extend(y.elts)
+                        elif isinstance(y, (ast.Subscript, ast.Attribute, ast.Starred)):
+                            stack.append(y.value)
+                        elif isinstance(y, ast.Name):
+                            names.add(y.id)
                     root = t
                     while isinstance(root, ast.Subscript):
                         root = root.value
